@@ -41,6 +41,10 @@ func main() {
 			}
 			tr = append(tr, show(out))
 		}
+		if !sm.Dead {
+			sm.Scribble() // the read loop reuses its buffer: nothing in the tables may change
+			tr = append(tr, show("end"))
+		}
 		return strings.Join(tr, ";")
 	})
 	if r.Replayed() {
@@ -63,8 +67,8 @@ func main() {
 	for i := 0; i < nShort; i++ {
 		run(g.History(2 + rng.Intn(4)))
 	}
-	// bounded-exhaustive: every history of depth 1..3 (quick: depth 1..2) over the 14-letter alphabet; depth 4 in thorough
-	maxDepth := 2
+	// bounded-exhaustive: every history of depth 1..3 over the 17-letter alphabet; depth 4 in thorough
+	maxDepth := 3
 	if r.Thorough() {
 		maxDepth = 4
 	}
@@ -73,5 +77,18 @@ func main() {
 	}
 	for i := 0; i < nLong; i++ {
 		run(g.History(30 + rng.Intn(31)))
+	}
+	// address conflicts between MACs that own several hosts; DHCP offer pending when the only host is deleted
+	nConf, nOff := 500, 200
+	if r.Thorough() {
+		nConf, nOff = 10000, 3000
+	}
+	for i := 0; i < nConf; i++ {
+		run(g.ConflictHistory(6 + rng.Intn(25)))
+		r.Stat("class.conflict", 1)
+	}
+	for i := 0; i < nOff; i++ {
+		run(g.OfferDeletionHistory())
+		r.Stat("class.offer-deletion", 1)
 	}
 }
